@@ -82,10 +82,7 @@ Definition cuw_iter (a : assets) (x : st) (l : lstate) : iter :=
                   let l := {| l_cur := Some pi; l_node := l_node l; l_exit := l_exit l; l_operand := l_operand l;
                               l_step := psr; l_steps := l_steps l; l_trigger := l_trigger l |} in
                   if negb child_failed then
-                    let flow_missing := match get_run (session_ x) pi with
-                                        | Some r => match get_flow a (r_flow r) with None => true | Some _ => false end
-                                        | None => true
-                                        end in
+                    let flow_missing := run_flow_unusable a (session_ x) pi in
                     if flow_missing
                     then ICont (fail_run x pi None FParentMissingFlow) l
                     else
@@ -788,10 +785,7 @@ Definition finish_run (a : assets) (x : st) (l : lstate) (ci : nat) : iter :=
                   let l := {| l_cur := Some pi; l_node := l_node l; l_exit := l_exit l; l_operand := l_operand l;
                               l_step := psr; l_steps := l_steps l; l_trigger := l_trigger l |} in
                   if negb child_failed then
-                    let flow_missing := match get_run (session_ x) pi with
-                                        | Some r => match get_flow a (r_flow r) with None => true | Some _ => false end
-                                        | None => true
-                                        end in
+                    let flow_missing := run_flow_unusable a (session_ x) pi in
                     if flow_missing
                     then ICont (fail_run x pi None FParentMissingFlow) l
                     else
@@ -1173,9 +1167,7 @@ Proof.
   assert (Hfail : forall sr cc l2, l_cur l2 = Some pi -> l_exit l2 = None -> loop_inv (fail_run x1 pi sr cc) l2).
   { intros sr cc l2 Hc2 He2. eapply mid_fail_cur; [apply (Hmid l2 Hc2 He2)|apply failed_shape_fail_run|exact Hc2|exact He2]. }
   destruct (negb match run_status (session_ x1) c with Some RFailed => true | _ => false end).
-  - destruct (match get_run (session_ x1) pi with
-              | Some r0 => match get_flow a (r_flow r0) with Some _ => false | None => true end
-              | None => true end).
+  - destruct (run_flow_unusable a (session_ x1) pi).
     + apply Hfail; [reflexivity|exact Hexit].
     + pose proof (find_resume_exit_shape a x1 pi false []) as Hfre.
       destruct (find_resume_exit a x1 pi false []) as [x' e op|x'|x'|]; try exact I; try contradiction.
@@ -1615,9 +1607,7 @@ Proof.
   assert (Hfs : forall c, post_inv (session_ (fail_session {| session_ := s; sprint_ := empty_sprint |} wi c)) /\
                           sess_frame s (session_ (fail_session {| session_ := s; sprint_ := empty_sprint |} wi c))).
   { intros c. destruct Hpost as [Hc [Hp _]]. split; [apply fail_session_post; auto|repeat split]. }
-  destruct (match get_run s wi with
-            | Some rn => match get_flow a (r_flow rn) with Some _ => false | None => true end
-            | None => true end).
+  destruct (run_flow_unusable a s wi).
   { intros H; inversion H; subst; apply Hfs. }
   destruct (Z.of_nat (count_waits s) >=? max_resumes (a_opts a))%Z.
   { intros H; inversion H; subst; apply Hfs. }
@@ -1775,9 +1765,7 @@ Proof.
   { intros c res' H. inversion H; subst. left. exists {| session_ := s; sprint_ := empty_sprint |}, wi, c.
     destruct Hpost as [Hc [Hp _]]. split; [reflexivity|]. split; [exact Hc|]. split; [exact Hp|].
     split; [apply frame_refl|]. split; [reflexivity|left; reflexivity]. }
-  destruct (match get_run s wi with
-            | Some rn => match get_flow a (r_flow rn) with Some _ => false | None => true end
-            | None => true end); [apply Hfs|].
+  destruct (run_flow_unusable a s wi); [apply Hfs|].
   destruct (Z.of_nat (count_waits s) >=? max_resumes (a_opts a))%Z; [apply Hfs|].
   destruct (path_location a s wi) as [[pos n]|] eqn:Epl; [|apply Hfs].
   destruct (n_router n) as [[[w|] rres rcats rcases rdef]|]; try apply Hfs.
